@@ -146,7 +146,8 @@ def _min_distance(ctx, prog):
 
 
 def _decision(ctx, prog):
-    b = util.find_one(ctx, suffix="collisions::CollisionTask::<'_>::collides")
+    b = util.find_role(ctx, 'per-pair decision: method of CollisionTask returning Option<(u16, u16)>',
+                       lambda b, sg: 'CollisionTask' in (b.raw.get('impl_self') or '') and 'Option<(u16, u16)>' in sg[0].replace('std::option::', ''), module='collisions::')
     calls = [(bi, t, cname(callee_name(t))) for bi, t in b.calls()]
     it = [(bi, t) for bi, t, n in calls if n.endswith('query::intersection_test') or n.endswith('intersection_test')]
     di = [(bi, t) for bi, t, n in calls if n.endswith('query::distance') or n == 'distance::distance' or n.endswith('::distance')]
@@ -267,7 +268,8 @@ def _self_fld(t):
 
 
 def _dispatch(ctx, prog, enum_b):
-    b = util.find_one(ctx, suffix='collisions::RobotBody::process_collision_tasks')
+    b = util.find_role(ctx, 'task evaluation: RobotBody fn taking Vec<CollisionTask>',
+                       lambda b, sg: len(sg) > 1 and 'Vec<collisions::CollisionTask' in sg[1].replace('std::vec::', ''), module='collisions::')
     calls = {}
     for bi, t in b.calls():
         calls.setdefault(cname(callee_name(t)).split('::')[-1], []).append((bi, t))
